@@ -81,7 +81,22 @@ func (e *Exec) builtin(fr *frame, st *State, b *ssa.Builtin, c *ssa.CallCommon, 
 		}
 		return NilIface
 	case "clear":
-		unsupported("clear builtin")
+		sl, ok := c.Args[0].Type().Underlying().(*types.Slice)
+		if !ok || isAggregate(sl.Elem()) {
+			unsupported("clear of %s", c.Args[0].Type())
+		}
+		s := args[0]
+		key := elemKey(sl.Elem())
+		hs := smt.Array(AddrS, smt.Array(BV64, e.W.SortOf(sl.Elem())))
+		h := e.heap(st, key, hs)
+		darr := smt.Select(h, SArr(s))
+		nd := e.fresh("clear.arr", hs.Elem)
+		e.boundCtr++
+		i := smt.BoundVar(fmt.Sprintf("ci!%d", e.boundCtr), BV64)
+		inRange := smt.And(smt.BVUle(SOff(s), i), smt.BVUlt(i, smt.BVAdd(SOff(s), SLen(s))))
+		e.Axiom(smt.Forall([]*smt.Term{i}, smt.Eq(smt.Select(nd, i), smt.Ite(inRange, e.W.Zero(sl.Elem()), smt.Select(darr, i)))))
+		e.writeHeap(st, smt.Neq(SLen(s), smt.Const(64, 0)), key, hs, SArr(s), nil, nd, pos)
+		return smt.TupleOf()
 	}
 	unsupported("builtin %s", b.Name())
 	return nil
@@ -140,7 +155,7 @@ func (e *Exec) lookup(fr *frame, st *State, x *ssa.Lookup) *smt.Term {
 	raw := smt.Select(smt.Select(e.heap(st, vk, vs), xv), k)
 	e.assumeWF(st, raw, mt.Elem())
 	raw0 := smt.Select(smt.Select(e.heapInit(vk, vs), xv), k)
-	e.assumeNotFresh(st, raw0, mt.Elem(), e.alloc0)
+	e.assumeNotFreshIf(st, smt.Not(isFresh(xv, e.alloc0)), raw0, mt.Elem(), e.alloc0)
 	v := smt.Ite(has, raw, e.W.Zero(mt.Elem()))
 	if x.CommaOk {
 		return smt.TupleOf(v, has)
@@ -180,7 +195,7 @@ func (e *Exec) next(fr *frame, st *State, x *ssa.Next) *smt.Term {
 	raw := smt.Select(smt.Select(e.heap(st, vk, vs), m), k)
 	e.assumeWF(st, raw, mt.Elem())
 	raw0 := smt.Select(smt.Select(e.heapInit(vk, vs), m), k)
-	e.assumeNotFresh(st, raw0, mt.Elem(), e.alloc0)
+	e.assumeNotFreshIf(st, smt.Not(isFresh(m, e.alloc0)), raw0, mt.Elem(), e.alloc0)
 	// ghost: remember the iteration domain (used by map-copy reasoning)
 	return smt.TupleOf(ok, k, raw)
 }
@@ -237,7 +252,7 @@ func (e *Exec) appendOp(st *State, stype types.Type, s, more *smt.Term, moreT ty
 				smt.Eq(smt.Select(nd, i), smt.Ite(inRange, srcArr(smt.BVSub(i, base)), smt.Select(dst, i)))))
 			dst = nd
 		}
-		e.writeHeap(sIn, smt.True, key, hs, SArr(s), nil, dst, pos)
+		e.writeHeap(sIn, smt.Neq(n, smt.Const(64, 0)), key, hs, SArr(s), nil, dst, pos)
 		resIn = MkSlice(SArr(s), SOff(s), newLen, cp)
 	}
 	// reallocating arm
@@ -247,7 +262,8 @@ func (e *Exec) appendOp(st *State, stype types.Type, s, more *smt.Term, moreT ty
 	if !sRe.Dead() {
 		arr := e.newObj(sRe)
 		ncap := e.fresh("app.cap", BV64)
-		e.safety(sRe, "append-overflow", smt.BVUle(newLen, cap48), pos)
+		// memory exhaustion is not modelled: the grown slice fits the address space
+		sRe.Assume(smt.BVUle(newLen, cap48))
 		sRe.Assume(smt.And(smt.BVUle(newLen, ncap), smt.BVUle(ncap, cap48)))
 		old := smt.Select(h, SArr(s))
 		var content *smt.Term
